@@ -144,7 +144,7 @@ fn rnd_color(rng: &mut Rng) -> Color {
 }
 
 /// One random mutation of a builder state.
-fn mutate(rng: &mut Rng, bb: &mut BoardBuilder) -> &'static str {
+pub fn mutate(rng: &mut Rng, bb: &mut BoardBuilder) -> &'static str {
     match rng.below(13) {
         0 => {
             let e = empties(bb);
@@ -232,7 +232,7 @@ fn mutate(rng: &mut Rng, bb: &mut BoardBuilder) -> &'static str {
 }
 
 /// Targeted single-defect states below an accepted board (one clause of the soundness statement each).
-fn targeted(rng: &mut Rng, base: &BoardBuilder, out: &mut Vec<(String, BoardBuilder)>) {
+pub fn targeted(rng: &mut Rng, base: &BoardBuilder, out: &mut Vec<(String, BoardBuilder)>) {
     let us = base.side_to_move;
     let them = !us;
     let mut push = |name: &str, bb: BoardBuilder| out.push((name.to_string(), bb));
@@ -396,7 +396,7 @@ fn targeted(rng: &mut Rng, base: &BoardBuilder, out: &mut Vec<(String, BoardBuil
     }
 }
 
-fn accepted_board(rng: &mut Rng, roots: &Roots) -> Option<Board> {
+pub fn accepted_board(rng: &mut Rng, roots: &Roots) -> Option<Board> {
     let r = rng.below(100);
     let mut b = if r < 35 {
         { let t = rng.pick(&roots.corpus).clone(); guard(|| Board::from_fen(&t, true)).and_then(|r| r.ok())? }
